@@ -194,7 +194,7 @@ def save_clause(col, ob, renames):
             written = owner.xmlnode.get(attr)
         want = '#%s' % target.id
         if written != want:
-            fails.append(('saved-ref:%s' % kind, 'after save the %s reference reads %r but its target\'s id is %r' % (kind, written, target.id)))
+            fails.append(('saved-ref:%s' % kind, 'after save the %s reference reads %r; its target\'s current id is %r, so it must read %r' % (kind, written, target.id, want)))
             continue
         # resolves inside the written document
         if isinstance(lib, tuple):
